@@ -30,6 +30,8 @@ from . import strnum, table as T
 VALUE = "serde_json::Value"
 INDEX_PATH = "<std::vec::Vec<T, A> as std::ops::Index<I>>::index"
 WANT = {"<": "Lt", "<=": "Le", ">": "Gt", ">=": "Ge"}
+ORD = ("Less", "Equal", "Greater")
+ORD_SETS = {"Lt": {"Less"}, "Le": {"Less", "Equal"}, "Gt": {"Greater"}, "Ge": {"Greater", "Equal"}, "Eq": {"Equal"}}
 FLIP = {"Lt": "Gt", "Le": "Ge", "Gt": "Lt", "Ge": "Le"}
 
 
@@ -38,6 +40,9 @@ def operand_index(b, e, vecp):
     if isinstance(e, dict):
         e = b.trace(e)
     e = strip_payload(strip_refs(e))
+    if e[0] == "index" and strip_refs(e[1]) == ("arg", vecp):
+        i = strip_refs(e[2])        # `slice[i]` on a slice parameter is a place projection, not a call
+        return const_value(i[1]) if i[0] == "const" else None
     if e[0] != "call" or not e[1]:
         return None
     base = strip_refs(e[2][0]) if e[2] else None
@@ -67,6 +72,10 @@ def comparator_sites(facts, body, vecp):
                 out.append((bi, "param", (operand_index(body, tup[2][0], vecp), operand_index(body, tup[2][1], vecp))))
         elif c["local"] and facts.items.get(c["key"], {}).get("output") == "bool" and facts.items[c["key"]].get("inputs") == ["&serde_json::Value", "&serde_json::Value"]:
             out.append((bi, c["key"], (operand_index(body, t["args"][0], vecp), operand_index(body, t["args"][1], vecp))))
+    # calls through a `fn(&Value, &Value) -> bool` pointer parameter
+    for bi, t in body.calls():
+        if callee_of(t) is None and len(t["args"]) == 2 and re.search(r"fn\(&(?:'\w+ )?serde_json::Value, &(?:'\w+ )?serde_json::Value\) -> bool", t.get("fty") or ""):
+            out.append((bi, "param", (operand_index(body, t["args"][0], vecp), operand_index(body, t["args"][1], vecp))))
     return out
 
 
@@ -74,6 +83,8 @@ def run(ctx):
     ctx.explanation = __doc__
     ctx.rule = "instances = 4 operators × (arity, between shape, 4 primitive-kind cases with operator reading) + to-primitive matrix + conversion facts; non-trivial = specialisation, dominance"
     ctx.trusted = ["Rust's String ordering is code-point (UTF-8 byte) order", "IEEE comparisons with NaN are false", "C16 for the string form"]
+    from . import manifest as _MF
+    _MF.same_library_clause(ctx, "K2.number-model")
     cfgs = ["default"] if ctx.tier == "quick" else ["default", "python", "wasm"]
     for cfg in cfgs:
         facts = ctx.facts(cfg)
@@ -98,13 +109,16 @@ def run(ctx):
                 # which argument is the operand vector, which the comparator
                 for i, a in enumerate(t["args"]):
                     c = op_const(a)
+                    if c is None:
+                        ta = strip_refs(b.trace(a))
+                        c = ta[1] if ta[0] == "const" else None
                     if c and "fn" in c:
                         cmp_key = (c["fn"].get("resolved") or c["fn"])["key"]
                     elif strip_refs(b.trace(a)) == ("arg", vecp):
                         hv = i + 1
                 vecp = hv
                 sites = comparator_sites(facts, host, vecp)
-                extra = [callee_path(tt) for _, tt in host.calls() if not (callee_path(tt) in (INDEX_PATH, "std::vec::Vec::<T, A>::len", "core::slice::<impl [T]>::get", "core::slice::<impl [T]>::len", "core::slice::<impl [T]>::first", "<std::vec::Vec<T, A> as std::ops::Deref>::deref") or (callee_path(tt) or "").startswith("std::ops::Fn"))]
+                extra = [callee_path(tt) for _, tt in host.calls() if callee_of(tt) is not None and not (callee_path(tt) in (INDEX_PATH, "std::vec::Vec::<T, A>::len", "core::slice::<impl [T]>::get", "core::slice::<impl [T]>::len", "core::slice::<impl [T]>::first", "<std::vec::Vec<T, A> as std::ops::Deref>::deref") or (callee_path(tt) or "").startswith("std::ops::Fn"))]
                 ctx.check(not extra, "K1.untouched", "%s: operands reach the comparator untouched (%s)" % (op, cfg), "the between helper also calls %s — operands are converted before the adjacent comparisons" % extra, where=host.where(), fn=host.key, nontrivial=True)
             else:
                 keys = {s[1] for s in sites}
@@ -112,97 +126,199 @@ def run(ctx):
                 cmp_key = keys.pop()
             ctx.need(cmp_key and cmp_key != "param", "%s: comparator function not identified" % op)
             comparators[op] = facts.body(cmp_key)
-            # between shape
-            two = three = None
-            for sb in host.reachable():
-                tt = host.blocks[sb]["term"]
-                if tt["k"] == "SwitchInt":
-                    e2 = strip_refs(host.trace(tt["discr"]))
-                    if e2[0] == "binop" and e2[1] in ("Eq", "Ne") and strip_refs(e2[2])[0] == "call" and strip_refs(e2[2])[1]["path"].endswith("::len") and strip_refs(e2[3])[0] == "const":
-                        k = const_value(strip_refs(e2[3])[1])
-                        if k in (2, 3):
-                            t_edge = bool_edge(host, sb, e2[1] == "Eq")
-                            f_edge = bool_edge(host, sb, e2[1] != "Eq")
-                            two, three = ((sb, t_edge), (sb, f_edge)) if k == 2 else ((sb, f_edge), (sb, t_edge))
-            if two is None:
-                # `match items.get(2) { None => two-operand form, Some(third) => three-operand form }`
-                from .core import option_guards
-                for (sw_, t_some, t_none) in option_guards(host, lambda x: x[0] == "call" and x[1] and re.search(r"::get$", x[1]["path"]) is not None and strip_refs(x[2][1])[0] == "const" and const_value(strip_refs(x[2][1])[1]) == 2):
-                    two, three = (sw_, t_none), (sw_, t_some)
-            ctx.check(two is not None, "K1.len-split", "%s distinguishes the two- and three-operand forms by the operand count (%s)" % (op, cfg), "no test of the operand count", where=host.where(), fn=host.key, nontrivial=True)
-            if two is None:
-                continue
-            # the comparisons made in each form: all sites except those confined to the other form
-            s2 = [s for s in sites if not edge_dominates(host, three[0], three[1], s[0])]
-            s3 = [s for s in sites if not edge_dominates(host, two[0], two[1], s[0])]
-            ctx.check(sorted((x[2] for x in s2), key=str) == [(0, 1)], "K1.two-operand", "%s with two operands is cmp(op0, op1) (%s)" % (op, cfg), "two-operand form compares %s" % [x[2] for x in s2], where=host.where(), fn=host.key, nontrivial=True)
-            ctx.check(sorted((x[2] for x in s3), key=str) == [(0, 1), (1, 2)], "K1.three-operand", "%s with three operands compares (op0,op1) and (op1,op2) (%s)" % (op, cfg), "three-operand form compares %s" % [x[2] for x in s3], where=host.where(), fn=host.key, nontrivial=True,
-                      sample={"operator": op, "pairs": [x[2] for x in s3]})
-            first = [x for x in s3 if x[2] == (0, 1)]
-            second = [x for x in s3 if x[2] == (1, 2)]
-            if first and second:
-                fb, sbk = first[0][0], second[0][0]
-                conj = False
-                for sw in host.reachable():
-                    tt = host.blocks[sw]["term"]
-                    if tt["k"] == "SwitchInt":
-                        ex = strip_refs(host.trace(tt["discr"]))
-                        if ex[0] == "call" and ex[3] == fb:
-                            if edge_dominates(host, sw, bool_edge(host, sw, True), sbk):
-                                # false edge → constant false
-                                tg = bool_edge(host, sw, False)
-                                region = host.reachable(tg) - host.reachable(bool_edge(host, sw, True))
-                                vals = []
-                                for bi in region | {tg}:
-                                    for st in host.blocks[bi]["stmts"]:
-                                        if st["k"] == "Assign" and st["rv"]["k"] == "Use" and op_const(st["rv"]["op"]) and isinstance(const_value(op_const(st["rv"]["op"])), bool):
-                                            vals.append(const_value(op_const(st["rv"]["op"])))
-                                conj = vals == [False]
-                ctx.check(conj, "K1.conjunction", "%s: second comparison only if the first holds, else false (%s)" % (op, cfg), "the three-operand form is not cmp(a,b) && cmp(b,c)", where=host.where(), fn=host.key, nontrivial=True)
+            # between shape, read off the path summaries of the host (rules/pathsum.py): for either operand count and
+            # every outcome of the adjacent comparisons, each feasible path returns cmp(op0,op1) [&& cmp(op1,op2)]
+            between_by_paths(ctx, facts, host, vecp, cmp_key, op, cfg)
         # ---------------- K2
         mats = {}
         for op, f in comparators.items():
             m = comparator_matrix(ctx, facts, roles, f, s2n, op, cfg)
             mats[op] = m
         # ---------------- K3
-        tp = to_primitive_number(facts, roles, comparators)
-        to_primitive_composition(ctx, facts, roles, comparators, tp, cfg)
-        if tp is not None:
-            want = {"Null": "Some(0.0)", "Bool": "Some(1.0)|Some(0.0)", "Number": "as_f64", "String": "None", "Array": "None", "Object": "None"}
+        tps = to_primitive_number(facts, roles, comparators)
+        ctx.need(tps, "number-hint conversion (&Value → Option<f64> without local calls, reachable from the comparators) not found")
+        ctx.check(len(tps) == 1, "K3.to-primitive-shared", "one number-hint conversion feeds the comparisons (%s)" % cfg,
+                  "several value → Option<f64> conversions are reachable from the comparators: %s — each must obey the table, and to-primitive may use only one" % [t_.key.split("::", 1)[1] for t_ in tps], where=tps[0].where(), fn=tps[0].key, nontrivial=True)
+        to_primitive_composition(ctx, facts, roles, comparators, tps[0], cfg)
+        for tp in tps:
+            # read off the path summaries of the function (rules/pathsum.py): for each kind of the argument, every path's
+            # result — independent of how the arms are written (merged arms, literal patterns, if/else on the payload)
+            from . import pathsum
+            want = {"Null": {"Some(0.0)"}, "Bool": {"true→Some(1.0)", "false→Some(0.0)"}, "Number": {"as_f64"}, "String": {"None"}, "Array": {"None"}, "Object": {"None"}}
             for v in facts.variants(VALUE):
-                blocks, dec = tp.specialize(lambda e, a, _v=v: _v if (a == VALUE and e == ("arg", 1)) else None)
-                with tp.restricted(blocks):
-                    r = strip_refs(tp.trace(0))
-                cands = [strip_refs(x) for x in r[2]] if r[0] == "phi" else [r]
-                got = []
-                for c in cands:
+                w = pathsum.summarize(tp, known=lambda e, adt, _v=v: _v if (adt == VALUE and strip_refs(e) == ("arg", 1)) else None)
+                ctx.need(not w.overflow and w.paths and not any(p.truncated for p in w.paths), "number-hint conversion has loops or too many paths to summarise")
+                got = set()
+                for p in w.paths:
+                    c = strip_refs(p.result)
                     if c[0] == "agg" and c[1].get("variant") == "None":
-                        got.append("None")
+                        r_ = "None"
                     elif c[0] == "agg" and c[1].get("variant") == "Some" and strip_refs(c[2][0])[0] == "const":
-                        got.append("Some(%s)" % const_value(strip_refs(c[2][0])[1]))
-                    elif c[0] == "call" and c[1]["path"] == "serde_json::Number::as_f64":
-                        got.append("as_f64")
+                        r_ = "Some(%s)" % const_value(strip_refs(c[2][0])[1])
+                    elif c[0] == "call" and c[1] and c[1]["path"] == "serde_json::Number::as_f64" and _is_payload(c[2][0], "Number"):
+                        r_ = "as_f64"
+                    elif v == "Bool" and c[0] == "agg" and c[1].get("variant") == "Some" and _bool_as_number(c[2][0]):
+                        # `b as u8 as f64` / f64::from(b): true → 1, false → 0 by the language's definition of the conversion
+                        got.update({"true→Some(1.0)", "false→Some(0.0)"})
+                        continue
                     else:
-                        got.append("?")
-                g = "|".join(got)
-                ok = g == want[v]
-                if v == "Bool" and ok:
-                    # polarity: true → 1
-                    ok = False
-                    for sb in blocks:
-                        tt = tp.blocks[sb]["term"]
-                        if tt["k"] == "SwitchInt" and tt.get("dty") == "bool":
-                            from .opfacts import const_under_edge
-                            tg = bool_edge(tp, sb, True)
-                            for st in tp.blocks[tg]["stmts"]:
-                                if st["k"] == "Assign" and st["rv"]["k"] == "Aggregate" and st["rv"].get("variant") == "Some":
-                                    c = op_const(st["rv"]["ops"][0])
-                                    ok = c is not None and const_value(c) == 1.0
-                ctx.check(ok, "K3.to-primitive-number", "%s (%s)" % (v, cfg), "number-hint conversion of %s yields %s; expected %s" % (v, g, want[v]), where=tp.where(), fn=tp.key, nontrivial=True, sample={"kind": v, "conversion": g})
+                        r_ = "?" + show_expr(c)[:60]
+                    if v == "Bool":
+                        # which payload value leads here
+                        pol = None
+                        for (key, val) in p.order:
+                            if key[0] in ("expr", "cmp") and "'Bool'" in str(key) and isinstance(val, bool):
+                                if key[0] == "expr":
+                                    pol = val
+                                elif key[0] == "cmp" and key[1] == "Eq" and key[3] in ("c:True", "c:False"):
+                                    pol = val if key[3] == "c:True" else (not val)
+                                elif key[0] == "cmp" and key[1] == "Eq" and key[2] in ("c:True", "c:False"):
+                                    pol = val if key[2] == "c:True" else (not val)
+                        r_ = "%s→%s" % ({True: "true", False: "false", None: "?"}[pol], r_)
+                    got.add(r_)
+                ctx.check(got == want[v], "K3.to-primitive-number", "%s (%s)" % (v, cfg), "number-hint conversion of %s yields %s; expected %s" % (v, sorted(got), sorted(want[v])), where=tp.where(), fn=tp.key, nontrivial=True,
+                          sample={"kind": v, "conversion": sorted(got)})
+
+
+def between_by_paths(ctx, facts, host, vecp, cmp_key, op, cfg):
+    from . import pathsum
+    w = pathsum.summarize(host)
+    ctx.need(not w.overflow and w.paths and not any(p.truncated for p in w.paths), "%s: the between host has loops or too many paths to summarise" % op)
+
+    def is_vec(e):
+        e = strip_refs(e)
+        while e[0] == "call" and e[1] and e[1]["path"].endswith("Deref>::deref"):
+            e = strip_refs(e[2][0])
+        return e == ("arg", vecp)
+
+    def len_value(key, val, n):
+        """truth of the atom for operand count n, or None when the atom is not about the operand count."""
+        if key[0] == "cmp":
+            _, o, A, B = key
+            la = "::len(" in A and ("(arg %d)" % vecp) in A and A.count("(arg") == 1
+            lb = "::len(" in B and ("(arg %d)" % vecp) in B and B.count("(arg") == 1
+            if la and B.startswith("c:") and B[2:].lstrip("-").isdigit():
+                x, y = n, int(B[2:])
+            elif lb and A.startswith("c:") and A[2:].lstrip("-").isdigit():
+                x, y = int(A[2:]), n
+            else:
+                return None
+            return {"Eq": x == y, "Lt": x < y}[o]
+        if key[0] == "int" and "::len(" in key[1] and ("(arg %d)" % vecp) in key[1]:
+            if isinstance(val, tuple):
+                return ("int", n not in val[1])
+            return ("int", n == val)
+        if key[0] == "variant" and re.search(r"::get\(.*\(arg %d\).*,c:(\d+)\)$" % vecp, key[1]):
+            c = int(re.search(r",c:(\d+)\)$", key[1]).group(1))
+            return ("variant", "Some" if n > c else "None")
+        return None
+
+    def cmp_pair(ev):
+        c = ev[1]
+        if c is None and len(ev[2]) == 2:
+            # call through a comparator pointer: identified by its operands
+            return (operand_index(host, ev[2][0], vecp), operand_index(host, ev[2][1], vecp)), ("site", ev[3])
+        if c is not None and c["path"].startswith("std::ops::Fn") and c["path"].endswith("::call") and len(ev[2]) == 2:
+            tup = strip_refs(ev[2][1])
+            if tup[0] == "agg" and tup[1].get("agg") == "Tuple" and len(tup[2]) == 2:
+                return (operand_index(host, tup[2][0], vecp), operand_index(host, tup[2][1], vecp)), ("pure", pathsum.canon(("call", c, ev[2], ev[3])))
+        if c is not None and c.get("local") and facts.items.get(c["key"], {}).get("output") == "bool" and facts.items[c["key"]].get("inputs") == ["&serde_json::Value", "&serde_json::Value"] and len(ev[2]) == 2:
+            return (operand_index(host, ev[2][0], vecp), operand_index(host, ev[2][1], vecp)), ("site", ev[3])
+        return None
+
+    def value_of(e, assign, sitepairs):
+        e = strip_payload(strip_refs(e))
+        while e[0] == "agg" and e[1].get("variant") in ("Bool", "Ok", "Some") and len(e[2]) == 1:
+            e = strip_payload(strip_refs(e[2][0]))
+        if e[0] == "const" and isinstance(const_value(e[1]), bool):
+            return const_value(e[1])
+        if e[0] == "call":
+            pr = cmp_pair(e if len(e) > 3 else e)
+            if pr and pr[0] in assign:
+                return assign[pr[0]]
+        if e[0] == "binop" and e[1] in ("BitAnd", "BitOr"):
+            x, y = value_of(e[2], assign, sitepairs), value_of(e[3], assign, sitepairs)
+            if x is None or y is None:
+                return None
+            return (x and y) if e[1] == "BitAnd" else (x or y)
+        if e[0] == "unop" and e[1] == "Not":
+            x = value_of(e[2], assign, sitepairs)
+            return None if x is None else (not x)
+        return None
+
+    pairs_seen = set()
+    bad = []
+    unread = []
+    for n in (2, 3):
+        for x01 in (True, False):
+            for x12 in ((True, False) if n == 3 else (None,)):
+                assign = {(0, 1): x01}
+                if n == 3:
+                    assign[(1, 2)] = x12
+                expected = x01 if n == 2 else (x01 and x12)
+                hits = 0
+                for p in w.paths:
+                    feasible = True
+                    evpairs = {}
+                    for ev in p.events:
+                        cp = cmp_pair(ev)
+                        if cp:
+                            evpairs[cp[1]] = cp[0]
+                            pairs_seen.add(cp[0])
+                    for (key, val) in p.order:
+                        lv = len_value(key, val, n)
+                        if lv is not None:
+                            if isinstance(lv, tuple):
+                                if lv[0] == "int" and not lv[1]:
+                                    feasible = False
+                                if lv[0] == "variant" and lv[1] != val:
+                                    feasible = False
+                            elif lv != val:
+                                feasible = False
+                        elif key in evpairs and evpairs[key] in assign and assign[evpairs[key]] != val:
+                            feasible = False
+                        elif key in evpairs and evpairs[key] not in assign:
+                            feasible = False      # compares a pair that does not exist for this operand count
+                    if not feasible:
+                        continue
+                    hits += 1
+                    got = value_of(p.result, assign, evpairs)
+                    if got is None:
+                        unread.append(show_expr(strip_refs(p.result))[:100])
+                    elif got != expected:
+                        bad.append("%d operands, cmp(op0,op1)=%s%s: returns %s" % (n, x01, "" if n == 2 else ", cmp(op1,op2)=%s" % x12, got))
+                if not hits:
+                    bad.append("%d operands, cmp(op0,op1)=%s: no path" % (n, x01))
+    ctx.check(pairs_seen <= {(0, 1), (1, 2)} and (0, 1) in pairs_seen and (1, 2) in pairs_seen, "K1.three-operand", "%s compares exactly (op0,op1) and (op1,op2) (%s)" % (op, cfg),
+              "%s compares the operand pairs %s" % (op, sorted(pairs_seen, key=str)), where=host.where(), fn=host.key, nontrivial=True, sample={"operator": op, "pairs": sorted(pairs_seen, key=str)})
+    ctx.need(not unread, "%s: result of the between host not readable as a boolean of the adjacent comparisons: %s" % (op, unread[:2]))
+    ctx.check(not bad, "K1.conjunction", "%s: cmp(op0,op1) with two operands, cmp(op0,op1) && cmp(op1,op2) with three — on every path (%s)" % (op, cfg),
+              "the operator does not compute the (conjunction of the) adjacent comparisons: %s" % "; ".join(bad[:4]), where=host.where(), fn=host.key, nontrivial=True)
+
+
+def _bool_as_number(e):
+    e = strip_refs(e)
+    while e[0] == "cast" and e[1] in ("IntToInt", "IntToFloat"):
+        e = strip_refs(e[2])
+    if e[0] == "call" and e[1] and re.search(r"From<bool>.*::from$|<bool as std::convert::Into<.*>>::into$", e[1]["path"]):
+        e = strip_refs(e[2][0])
+    return _is_payload(e, "Bool")
+
+
+def _is_payload(e, variant, arg=1):
+    e = strip_refs(e)
+    return e[0] == "field" and e[2] == 0 and e[1][0] == "downcast" and e[1][2] == variant and strip_refs(e[1][1]) == ("arg", arg)
 
 
 def to_primitive_composition(ctx, facts, roles, comparators, tpn, cfg):
-    """The to-primitive function (number hint) is exactly: number-hint conversion, else the string form."""
+    """The to-primitive function (number hint) is exactly: the number-hint conversion when it yields a number, else the
+    string form of the value itself.  Decided on the function's decision cases (rules/optnorm.py: match code and
+    Option-combinator code in one form): under the number hint, every case returns Number(<payload of the number-hint
+    conversion of the argument>) — only when that conversion is Some — or String(<string form of the argument>) — only
+    when it is None.  A third source of numbers or strings (a helper that unwraps one-element arrays, say) is a case
+    that fits neither."""
+    from . import optnorm, pathsum
+    from .c16 import to_string_role
     cands = set()
     for f in comparators.values():
         for bi, t in f.calls():
@@ -210,23 +326,48 @@ def to_primitive_composition(ctx, facts, roles, comparators, tpn, cfg):
             if c and c["local"] and "Primitive" in facts.items.get(c["key"], {}).get("output", ""):
                 cands.add(c["key"])
     ctx.check(len(cands) == 1, "K3.to-primitive-shared", "the four comparators share one to-primitive function (%s)" % cfg, "%d to-primitive functions" % len(cands), where="", nontrivial=True)
-    if len(cands) != 1:
+    if len(cands) != 1 or tpn is None:
         return
     tp = facts.body(cands.pop())
-    unit = roles.unit(tp.key)
-    local = sorted({callee_of(t)["key"] for b in unit for _, t in b.calls() if callee_of(t) and callee_of(t)["local"]})
-    strform = [k for k in local if facts.items.get(k, {}).get("output") == "std::string::String" and facts.items[k].get("inputs") == ["&serde_json::Value"]]
-    allowed = set(strform) | ({tpn.key} if tpn is not None else set())
-    extra = [k for k in local if k not in allowed]
-    ctx.check(not extra and len(strform) == 1 and tpn is not None and tpn.key in local, "K3.to-primitive-composition", "to-primitive = number-hint conversion, else the string form — nothing else (%s)" % cfg,
-              "to-primitive also consults %s: some values would be compared as numbers although ECMAScript compares their string form (or vice versa)" % [k.split("::", 1)[1] for k in extra], where=tp.where(), fn=tp.key, nontrivial=True,
-              sample={"calls": [k.split("::", 1)[1] for k in local]})
-    for b in unit:
-        for bi, t in b.calls():
-            c = callee_of(t)
-            if c and c["local"] and c["key"] in allowed:
-                a = strip_refs(b.xtrace(t["args"][0]))
-                ctx.check(a == ("arg", 1), "K3.to-primitive-whole-value", "%s is applied to the value itself (%s, bb%d)" % (c["key"].rsplit("::", 1)[1], cfg, bi), "applied to %s" % show_expr(a)[:60], where=b.where(bi), fn=b.key)
+    strf = to_string_role(facts)
+    hint_args = [l for l in range(1, tp.arg_count + 1) if "Hint" in tp.local_ty(l)]
+
+    def known(e, adt):
+        if hint_args and strip_refs(e) == ("arg", hint_args[0]):
+            return "Number"
+        return None
+    cases = optnorm.decision_cases(facts, tp, known=known)
+    ctx.need(cases is not None, "to-primitive has loops or too many paths to summarise")
+    val_arg = [l for l in range(1, tp.arg_count + 1) if tp.local_ty(l).endswith("serde_json::Value")]
+    ctx.need(len(val_arg) == 1, "to-primitive's value parameter not identified")
+    va = val_arg[0]
+    tpn_key = None
+    bad = []
+    seen = set()
+    for conds, v, p in cases:
+        # the state of the number-hint conversion in this case
+        st = None
+        for k, val in conds.items():
+            if k[0] == "variant" and (tpn.key + "@") in k[1] and ("(arg %d)" % va) in k[1]:
+                st = val
+                tpn_key = k[1]
+        v = strip_refs(v)
+        ctor = None
+        inner = None
+        if v[0] == "agg" and v[1].get("variant") in ("Number", "String") and len(v[2]) == 1:
+            ctor, inner = v[1]["variant"], strip_refs(v[2][0])
+        elif v[0] == "call" and v[1] and v[1].get("path", "").endswith(("::Primitive::Number", "::Primitive::String")) and len(v[2]) == 1:
+            ctor, inner = v[1]["path"].rsplit("::", 1)[1], strip_refs(v[2][0])
+        if ctor == "Number" and st == "Some" and inner[0] == "payload" and inner[1] == tpn_key:
+            seen.add("number")
+            continue
+        if ctor == "String" and st == "None" and inner[0] == "call" and inner[1] and inner[1].get("key") == strf.key and strip_refs(inner[2][0]) == ("arg", va):
+            seen.add("string")
+            continue
+        bad.append("%s ⇒ %s" % ({(k[1][:50] if k[0] == "variant" else str(k)): val for k, val in conds.items()}, show_expr(v)[:90]))
+    ctx.check(not bad and seen == {"number", "string"}, "K3.to-primitive-composition", "to-primitive = number-hint conversion when it yields a number, else the string form — nothing else (%s)" % cfg,
+              "to-primitive has cases outside that rule: %s" % "; ".join(bad[:3]) if bad else "to-primitive never yields %s" % sorted({"number", "string"} - seen), where=tp.where(), fn=tp.key, nontrivial=True,
+              sample={"cases": len(cases), "forms": sorted(seen)})
 
 
 def to_primitive_number(facts, roles, comparators):
@@ -236,9 +377,7 @@ def to_primitive_number(facts, roles, comparators):
             it = facts.items.get(k, {})
             if it.get("output") == "std::option::Option<f64>" and it.get("inputs") == ["&serde_json::Value"] and facts.body(k) and not any(callee_of(t) and callee_of(t)["local"] for _, t in facts.body(k).calls()):
                 cands.add(k)
-    if len(cands) != 1:
-        return None
-    return facts.body(cands.pop())
+    return [facts.body(k) for k in sorted(cands)]
 
 
 def comparator_matrix(ctx, facts, roles, f, s2n, op, cfg):
@@ -249,104 +388,228 @@ def comparator_matrix(ctx, facts, roles, f, s2n, op, cfg):
         names = [callee_path(t) for _, t in local_bool]
         ctx.fail("K2.delegation", "%s|%s" % (op, ",".join(sorted(set(names)))), "the comparator for %s is built from %s (e.g. `not >` or `< or ==`): a comparison with a non-numeric conversion must be false, and abstract equality has another coercion table" % (op, names), where=f.where(), fn=f.key)
         return None
-    # the two to-primitive calls
+    # the decision cases of the comparator (rules/optnorm.py): kinds of the two to-primitive results, state of the
+    # string→number conversion, and what is returned — independent of match / if-let / combinator spelling
+    from . import optnorm, pathsum
     prim = [(bi, t) for bi, t in f.calls() if callee_of(t) and callee_of(t)["local"] and "Primitive" in facts.items.get(callee_of(t)["key"], {}).get("output", "")]
-    ctx.check(len(prim) == 2, "K2.to-primitive", "%s converts both operands with the shared to-primitive (%s)" % (op, cfg), "%d to-primitive calls" % len(prim), where=f.where(), fn=f.key, nontrivial=True)
+    ctx.check(len(prim) == 2 and len({callee_of(t)["key"] for _, t in prim}) == 1, "K2.to-primitive", "%s converts both operands with the shared to-primitive (%s)" % (op, cfg), "%d to-primitive calls" % len(prim), where=f.where(), fn=f.key, nontrivial=True)
     if len(prim) != 2:
         return None
+    tp_key = callee_of(prim[0][1])["key"]
     order = {}
     for bi, t in prim:
         a = strip_refs(f.trace(t["args"][0]))
-        hint = strip_refs(f.trace(t["args"][1]))
-        hv = hint[1].get("variant") if hint[0] == "agg" else None
-        ctx.check(hv == "Number", "K2.hint", "%s: to-primitive with number hint (bb%d, %s)" % (op, bi, cfg), "hint is %s" % hv, where=f.where(bi), fn=f.key)
+        if len(t["args"]) > 1:
+            hint = strip_refs(f.trace(t["args"][1]))
+            hv = hint[1].get("variant") if hint[0] == "agg" else None
+            ctx.check(hv == "Number", "K2.hint", "%s: to-primitive with number hint (bb%d, %s)" % (op, bi, cfg), "hint is %s" % hv, where=f.where(bi), fn=f.key)
         if a[0] == "arg":
             order[bi] = a[1]
     ctx.check(sorted(order.values()) == [1, 2], "K2.both-operands", "%s converts (first, second) (%s)" % (op, cfg), "to-primitive applied to %s" % order, where=f.where(), fn=f.key)
-    prim_adt = None
-    for l in f.locals:
-        if l.get("adt") and l["adt"].endswith("Primitive") and not l["adt"].startswith("std"):
-            prim_adt = l["adt"]
-    kinds = facts.variants(prim_adt)
-    m = {}
-    for k1 in kinds:
-        for k2 in kinds:
-            def assume(e, adt, _k1=k1, _k2=k2):
-                if adt != prim_adt:
-                    return None
-                x = strip_refs(e)
-                if x[0] == "call" and x[3] in order:
-                    return _k1 if order[x[3]] == 1 else _k2
+    cases = optnorm.decision_cases(facts, f)
+    if cases is None:
+        ctx.unread("K2.case", "%s (%s)" % (op, cfg), "the comparator has loops or too many paths to summarise", where=f.where(), fn=f.key)
+        return None
+
+    def side_of(text):
+        a1, a2 = "(arg 1)" in text, "(arg 2)" in text
+        return 1 if a1 and not a2 else 2 if a2 and not a1 else None
+
+    def ord_source(X):
+        """(domain, (side, side)) when X is the Ordering (or its Option) of comparing the two operands' primitives."""
+        X = strip_refs(X)
+        if X[0] == "payload":
+            X = strip_refs(X[2])
+        if X[0] == "field" and X[1][0] == "downcast" and X[1][2] == "Some":
+            X = strip_refs(X[1][1])
+        if X[0] == "agg" and X[1].get("variant") == "Some" and X[2]:
+            X = strip_refs(X[2][0])
+        if X[0] == "call" and X[1] and re.search(r"::(partial_cmp|cmp|total_cmp)$", X[1]["path"]) and len(X[2]) == 2:
+            if X[1]["path"].endswith("total_cmp"):
                 return None
-            restrict = P.specialise_unit(roles, f.key, assume)
-            blocks = restrict[f.key]
-            ops = []
-            conv = []
-            consts = []
-            for bi in sorted(blocks):
-                blk = f.blocks[bi]
-                for si, st in enumerate(blk["stmts"]):
-                    if st["k"] == "Assign" and st["rv"]["k"] == "BinaryOp" and st["rv"]["op"] in ("Lt", "Le", "Gt", "Ge", "Eq", "Ne"):
-                        a_, b_ = strip_refs(f.trace(st["rv"]["a"])), strip_refs(f.trace(st["rv"]["b"]))
-                        ops.append(("f64" if st["rv"].get("opty") == "f64" else st["rv"].get("opty"), st["rv"]["op"], side(a_, order), side(b_, order)))
-                    if st["k"] == "Assign" and st["place"]["local"] == 0 and st["rv"]["k"] == "Use" and op_const(st["rv"]["op"]) and isinstance(const_value(op_const(st["rv"]["op"])), bool):
-                        consts.append(const_value(op_const(st["rv"]["op"])))
-                t = blk["term"]
-                if t["k"] == "Call" and callee_of(t):
-                    p = callee_of(t)
-                    mm = re.search(r"<std::string::String as std::cmp::PartialOrd>::(lt|le|gt|ge)$|PartialOrd.*::(lt|le|gt|ge)$", p["path"])
-                    if mm and ("String" in (p.get("full") or "") or "str" in (p.get("full") or "")):
-                        nm = (mm.group(1) or mm.group(2)).capitalize()
-                        a_, b_ = strip_refs(f.trace(t["args"][0])), strip_refs(f.trace(t["args"][1]))
-                        ops.append(("str", nm, side(a_, order), side(b_, order)))
-                    if p.get("key") == s2n.key:
-                        conv.append(side(strip_refs(f.trace(t["args"][0])), order))
-            # comparisons made inside closures handed to Option combinators (`conv(x).map_or(false, |n| n < s)`)
-            for bi in sorted(blocks):
-                t = f.blocks[bi]["term"]
-                if t["k"] != "Call" or not callee_of(t):
-                    continue
-                pth = callee_of(t)["path"]
-                if not re.search(r"^std::option::Option::<T>::(map_or|map|and_then|is_some_and|unwrap_or)$", pth):
-                    continue
-                meth = pth.rsplit("::", 1)[1]
-                recv_side = side(strip_refs(f.trace(t["args"][0])), order)
-                if meth in ("map_or", "unwrap_or"):
-                    d_ = strip_refs(f.trace(t["args"][1]))
-                    if d_[0] == "const" and isinstance(const_value(d_[1]), bool):
-                        consts.append(const_value(d_[1]))
-                if meth == "is_some_and":
-                    consts.append(False)
-                for a in t["args"][1:]:
-                    ce = strip_refs(f.trace(a))
-                    if ce[0] == "agg" and ce[1].get("closure"):
-                        cb = facts.body(ce[1]["closure"])
-                        for cbi, csi, st in cb.stmts():
-                            if st["k"] == "Assign" and st["rv"]["k"] == "BinaryOp" and st["rv"]["op"] in ("Lt", "Le", "Gt", "Ge", "Eq", "Ne"):
-                                def cside(o):
-                                    e_ = strip_refs(cb.xtrace(o))
-                                    if e_ in (("arg", 2), ("carg", cb.key, 2)):
-                                        return recv_side
-                                    return side(e_, order)
-                                ops.append(("f64" if st["rv"].get("opty") == "f64" else st["rv"].get("opty"), st["rv"]["op"], cside(st["rv"]["a"]), cside(st["rv"]["b"])))
-            m[(k1, k2)] = (ops, conv, consts)
-            # expectations
-            key = "%s: %s×%s (%s)" % (op, k1, k2, cfg)
-            norm = []
-            for (ty, o, sa, sb) in ops:
+            sa, sb = side_of(pathsum.canon(X[2][0])), side_of(pathsum.canon(X[2][1]))
+            full = (X[1].get("full") or "") + X[1]["path"]
+            dom = "f64" if "f64" in full else "str" if ("String" in full or "str" in full) else None
+            if dom and (sa, sb) in ((1, 2), (2, 1)):
+                return (dom, (sa, sb))
+        return None
+
+    def reading(v):
+        v = strip_refs(v)
+        if v[0] == "const" and isinstance(const_value(v[1]), bool):
+            return ("const", const_value(v[1]))
+        if v[0] == "const" and v[1].get("ty") == "rel":
+            return ("rel", v[1]["rel"][0], v[1]["rel"][1])
+        if v[0] == "binop" and v[1] in ("Lt", "Le", "Gt", "Ge") and (len(v) < 5 or v[4] in ("f64", None)):
+            sa, sb = side_of(pathsum.canon(v[2])), side_of(pathsum.canon(v[3]))
+            o = v[1]
+            if (sa, sb) == (2, 1):
+                o, sa, sb = FLIP[o], 1, 2
+            return ("rel", o, "f64") if (sa, sb) == (1, 2) else None
+        if v[0] == "call" and v[1]:
+            mm = re.search(r"PartialOrd.*::(lt|le|gt|ge)$", v[1]["path"])
+            if mm and len(v[2]) == 2 and ("String" in (v[1].get("full") or "") or "str" in (v[1].get("full") or "")):
+                sa, sb = side_of(pathsum.canon(v[2][0])), side_of(pathsum.canon(v[2][1]))
+                o = mm.group(1).capitalize()
                 if (sa, sb) == (2, 1):
-                    o, sa, sb = FLIP.get(o, o), 1, 2
-                norm.append((ty, o, sa, sb))
-            if k1 == "String" and k2 == "String":
-                good = norm == [("str", want_op, 1, 2)] and not conv
-            elif k1 == "Number" and k2 == "Number":
-                good = norm == [("f64", want_op, 1, 2)] and not conv
+                    o, sa, sb = FLIP[o], 1, 2
+                return ("rel", o, "str") if (sa, sb) == (1, 2) else None
+            # `compare(a, b) == Some(Ordering::Less)` and friends
+            if re.search(r"PartialEq.*::(eq)$", v[1]["path"]) and len(v[2]) == 2:
+                for X, Y in ((strip_refs(v[2][0]), strip_refs(v[2][1])), (strip_refs(v[2][1]), strip_refs(v[2][0]))):
+                    want_o = None
+                    if Y[0] == "agg" and Y[1].get("variant") == "Some" and Y[2] and strip_refs(Y[2][0])[0] == "agg" and strip_refs(Y[2][0])[1].get("variant") in ORD:
+                        want_o = strip_refs(Y[2][0])[1]["variant"]
+                    elif Y[0] == "agg" and Y[1].get("variant") in ORD:
+                        want_o = Y[1]["variant"]
+                    if want_o is None:
+                        continue
+                    if X[0] == "agg" and X[1].get("variant") == "Some" and X[2]:
+                        X = strip_refs(X[2][0])
+                    if X[0] == "call" and X[1] and "from_residual" in X[1].get("path", ""):
+                        return ("const", False)       # None == Some(_) is false
+                    rel = ord_source(X)
+                    if rel:
+                        o = {"Less": "Lt", "Greater": "Gt", "Equal": "Eq"}[want_o]
+                        if rel[1] == (2, 1):
+                            o = FLIP.get(o, o)
+                        return ("rel", o, rel[0])
+            mo = re.search(r"^std::cmp::Ordering::is_(lt|le|gt|ge)$", v[1]["path"])
+            if mo and v[2]:
+                rel = ord_source(strip_refs(v[2][0]))
+                if rel:
+                    o = mo.group(1).capitalize()
+                    if rel[1] == (2, 1):
+                        o = FLIP[o]
+                    return ("rel", o, rel[0])
+            mm = re.search(r"^std::iter::Iterator::(lt|le|gt|ge)$", v[1]["path"])
+            if mm and len(v[2]) == 2:
+                # lexicographic comparison of two element sequences: the order is that of the elements
+                ca, cb = pathsum.canon(v[2][0]), pathsum.canon(v[2][1])
+                sa, sb = side_of(ca), side_of(cb)
+                unit = lambda c: "utf16" if "encode_utf16" in c else "str" if re.search(r"::(chars|bytes|as_bytes)\(", c) else "?"
+                o = mm.group(1).capitalize()
+                if (sa, sb) == (2, 1):
+                    o, sa, sb = FLIP[o], 1, 2
+                if (sa, sb) == (1, 2) and unit(ca) == unit(cb) and unit(ca) != "?":
+                    return ("rel", o, unit(ca))
+        return None
+    # order of strings is code-point order: no re-encoding or case mapping inside the comparator
+    own = facts.reach([f.key]) - facts.reach([tp_key, s2n.key])
+    for bk in sorted(own):
+        bb = facts.body(bk)
+        if bb is None:
+            continue
+        for bi, t in bb.calls():
+            pth = callee_path(t) or ""
+            if re.search(r"::(encode_utf16|to_lowercase|to_uppercase|to_ascii_lowercase|to_ascii_uppercase|eq_ignore_ascii_case)$", pth):
+                ctx.fail("K2.code-point-order", "%s|%s" % (op, pth.rsplit("::", 1)[1]), "the comparator for %s re-encodes or case-maps its strings (%s): strings must be compared by code point" % (op, pth), where=bb.where(bi), fn=bb.key)
+    groups = {}
+    for conds, v, p in cases:
+        kinds = {}
+        conv = {}
+        for k, val in conds.items():
+            if k[0] != "variant":
+                continue
+            if k[1].startswith(tp_key + "@") and side_of(k[1]):
+                kinds[side_of(k[1])] = val
+            elif k[1].startswith(s2n.key + "@") and side_of(k[1]):
+                conv[side_of(k[1])] = val
+        # `match compare(a, b) { Some(Less) | Some(Equal) => true, _ => false }`: the case is keyed by the outcome of an ordering
+        okey = None
+        for k, val in conds.items():
+            if k[0] != "variant":
+                continue
+            ex_ = (cases.exprs or {}).get(k)
+            if ex_ is None:
+                ex_ = optnorm.SRC_EXPRS.get(k)
+            if ex_ is None:
+                continue
+            rel = ord_source(ex_)
+            if rel is None:
+                continue
+            if val in ORD:
+                okey = (rel, frozenset([val]))
+            elif isinstance(val, tuple) and val and val[0] == "not" and okey is None:
+                okey = (rel, frozenset(o_ for o_ in ORD if o_ not in val[1]) if any(x in ORD for x in val[1]) else None)
+            elif val == "None":
+                okey = (rel, frozenset())
+            elif val == "Some" and okey is None:
+                okey = (rel, None)
+        groups.setdefault((kinds.get(1), kinds.get(2)), []).append((conv, v, okey))
+    # fold ordering-keyed constant cases into one reading per (kinds, conversion state)
+    for gk, lst in list(groups.items()):
+        if not any(o is not None for _, _, o in lst):
+            groups[gk] = [(c, v) for c, v, _ in lst]
+            continue
+        folded = {}
+        plain = []
+        for c, v, o in lst:
+            if o is None:
+                plain.append((c, v))
+                continue
+            folded.setdefault(tuple(sorted(c.items())), []).append((v, o))
+        for ck, items in folded.items():
+            true_set, ok_, rel = set(), True, None
+            covered = set()
+            for v, (r_, outs) in items:
+                rel = r_
+                vv = strip_refs(v)
+                if not (vv[0] == "const" and isinstance(const_value(vv[1]), bool)) or outs is None:
+                    ok_ = False
+                    continue
+                covered |= set(outs)
+                if const_value(vv[1]):
+                    if not outs:
+                        ok_ = False      # "unordered" must be false
+                    true_set |= set(outs)
+            if ok_ and covered >= set(ORD):
+                name = [n for n, s_ in ORD_SETS.items() if s_ == true_set and n != "Eq"]
+                if name:
+                    o = name[0]
+                    if rel[1] == (2, 1):
+                        o = FLIP[o]
+                    plain.append((dict(ck), ("const", {"ty": "rel", "rel": (o, rel[0])})))
+                    continue
+                plain.append((dict(ck), ("const", {"ty": "rel", "rel": ("?%s" % sorted(true_set), rel[0])})))
+                continue
+            plain.append((dict(ck), ("other", "ordering-case")))
+        groups[gk] = plain
+    m = {}
+    for k1 in ("String", "Number"):
+        for k2 in ("String", "Number"):
+            key = "%s: %s×%s (%s)" % (op, k1, k2, cfg)
+            g = groups.get((k1, k2))
+            if not g:
+                ctx.unread("K2.case", key, "no decision case of the comparator could be attributed to this pair of primitive kinds", where=f.where(), fn=f.key)
+                continue
+            reads = [(conv, reading(v), v) for conv, v in g]
+            if any(r is None for _, r, _ in reads):
+                ctx.unread("K2.case", key, "result not readable as a comparison of (first, second): %s" % [show_expr(strip_refs(v))[:80] for _, r, v in reads if r is None][:2], where=f.where(), fn=f.key)
+                continue
+            m[(k1, k2)] = reads
+            if k1 == k2:
+                dom = "str" if k1 == "String" else "f64"
+                good = all(not conv and r == ("rel", want_op, dom) for conv, r, _ in reads)
             else:
                 sside = 1 if k1 == "String" else 2
-                good = norm == [("f64", want_op, 1, 2)] and conv == [sside] and consts == [False]
-            ctx.check(good, "K2.case", key, "%s on %s×%s performs %s with conversions of side %s and constants %s; expected one %s comparison of (first, second)%s" % (
-                op, k1, k2, norm, conv, consts, want_op, "" if k1 == k2 else ", the string side converted, None ⇒ false"), where=f.where(), fn=f.key, nontrivial=True,
-                sample={"operator": op, "case": "%s×%s" % (k1, k2), "comparisons": [list(x) for x in norm], "converted_side": conv})
+                good = bool(reads)
+                states = set()
+                for conv, r, _ in reads:
+                    st = conv.get(sside)
+                    states.add(st)
+                    if set(conv) - {sside}:
+                        good = False
+                    if st == "Some":
+                        good = good and r == ("rel", want_op, "f64")
+                    elif st == "None":
+                        good = good and r == ("const", False)
+                    else:
+                        good = False
+                good = good and states == {"Some", "None"}
+            ctx.check(good, "K2.case", key, "%s on %s×%s decides %s; expected one %s comparison of (first, second)%s" % (
+                op, k1, k2, [(dict(c), r) for c, r, _ in reads], want_op, "" if k1 == k2 else " after converting the string side, a failed conversion ⇒ false"), where=f.where(), fn=f.key, nontrivial=True,
+                sample={"operator": op, "case": "%s×%s" % (k1, k2), "decisions": [[dict(c), list(r)] for c, r, _ in reads]})
     return m
 
 
